@@ -48,6 +48,120 @@ def spec_compat(target, self_):
     return "recurse" if tl else "eq"
 
 
+_LISTS = ("List", "NonNullList")
+
+
+def _mir_pair_table(fn, pa, pb, rec_re):
+    """decision table of a two-type predicate read from the CFG: for every pair of variants
+    (va of parameter pa, vb of parameter pb) the set of results over all paths whose conditions
+    agree with the pair, each normalised to false | true | eq(name,name) | eq-true |
+    subtype(x,y) | recurse(x,y).  Independent of whether the source is one tuple match, nested
+    matches, if-chains or helper accessors (inner_named_type / item_type on a known variant)."""
+    from ..flow import _strip
+    A, B = "arg%d" % pa, "arg%d" % pb
+    rows = enum_paths(fn)
+
+    def agrees(atoms, va, vb):
+        for f in _strip(atoms):
+            if f[0] in ("variant", "variant_in") and f[1] in (A, B):
+                v = va if f[1] == A else vb
+                names = (f[2],) if f[0] == "variant" else tuple(f[2])
+                pos = f[3] if (f[0] == "variant" and len(f) > 3) else True
+                if (v in names) != (pos is not False):
+                    return False
+            if f[0] == "callbool" and re.search(r"Type>?::(is_list|is_named|is_non_null)$", f[1]) and f[2] and f[2][0] in (A, B):
+                v = va if f[2][0] == A else vb
+                q = f[1].rsplit("::", 1)[-1]
+                val = {"is_list": v in _LISTS, "is_named": v not in _LISTS, "is_non_null": v.startswith("NonNull")}[q]
+                if val is not f[3]:
+                    return False
+        return True
+
+    def norm(x, va, vb):
+        x = re.sub(r"as<\*const [^()]*Type>\(([^()]*)\.0\.pointer\)", r"\1", x)
+        x = re.sub(r"[&*\s]", "", x)
+        while True:
+            m = re.fullmatch(r"\((.*)\)", x) or re.fullmatch(r"<NameasDeref>::deref\((.*)\)", x) or re.fullmatch(r"<Box<[^()]*>as(?:Deref|AsRef<[^()]*>)>::(?:deref|as_ref)\((.*)\)", x)
+            if not m:
+                break
+            x = m.group(1)
+        for arg, v in ((A, va), (B, vb)):
+            if re.fullmatch(r"%s\.as:(Named|NonNullNamed)\.0" % arg, x) or (re.fullmatch(r"(\w+::)*inner_named_type\(%s\)" % arg, x) and v not in _LISTS):
+                return "name(%s)" % ("a" if arg == A else "b")
+            if re.fullmatch(r"%s\.as:(List|NonNullList)\.0" % arg, x) or (re.fullmatch(r"(\w+::)*item_type\(%s\)" % arg, x) and v in _LISTS):
+                return "item(%s)" % ("a" if arg == A else "b")
+            if re.fullmatch(r"(\w+::)*inner_named_type\(%s\)" % arg, x):
+                return "innermost-name(%s)" % ("a" if arg == A else "b")
+        return x[:60]
+
+    def split_args(t):
+        out, n, cur = [], 0, ""
+        for ch in t:
+            if ch == "," and n == 0:
+                out.append(cur)
+                cur = ""
+                continue
+            n += ch == "("
+            n -= ch == ")"
+            cur += ch
+        out.append(cur)
+        return [o.strip() for o in out]
+
+    def leaf(atoms, path, va, vb):
+        rv = return_value_on_path(fn, path) or "?"
+        if rv == "const:false":
+            return "false"
+        if rv == "const:true":
+            for f in atoms:
+                if f[0] == "callbool" and re.search(r"PartialEq.*::eq$", f[1]) and f[3] is True and len(f) > 4:
+                    ops = sorted(norm(fn.sym_on_path(a, path), va, vb) for a in f[4].args)
+                    return "eq-true(%s)" % ",".join(ops)
+            return "true"
+        m = re.match(r"^(.*?)\((.*)\)$", rv)
+        if m:
+            callee, args = m.group(1), split_args(m.group(2))
+            if re.search(r"::eq$|^eq$", callee) and len(args) == 2:
+                return "eq(%s)" % ",".join(sorted(norm(a, va, vb) for a in args))
+            if callee.endswith("is_subtype") and len(args) == 3:
+                return "subtype(%s,%s)" % (norm(args[1], va, vb), norm(args[2], va, vb))
+            if re.search(rec_re, callee):
+                return "recurse(%s)" % ",".join(norm(a, va, vb) for a in args if not re.fullmatch(r"[&*]*arg\d+", a) or a.lstrip("&*") in (A, B))
+        return "?" + rv[:80]
+
+    table = {}
+    for va in VARIANTS:
+        for vb in VARIANTS:
+            res = set()
+            for atoms, rb, path in rows:
+                if agrees(atoms, va, vb):
+                    res.add(leaf(atoms, path, va, vb))
+            table[(va, vb)] = res
+    return table
+
+
+def _cell_class(res, first, second):
+    """first / second: 'a' or 'b' - the roles expected in first and second position"""
+    n1, n2 = "name(%s)" % first, "name(%s)" % second
+    i1, i2 = "item(%s)" % first, "item(%s)" % second
+    eqn = "eq(%s)" % ",".join(sorted((n1, n2)))
+    eqt = "eq-true(%s)" % ",".join(sorted((n1, n2)))
+    if res == {"false"}:
+        return "false"
+    if res == {"true"}:
+        return "true"
+    if res == {eqn} or res == {eqt, "false"}:
+        return "eq"
+    if res == {eqt, "subtype(%s,%s)" % (n1, n2)}:
+        return "eq-or-subtype"
+    if res == {eqt, "subtype(%s,%s)" % (n2, n1)}:
+        return "eq-or-subtype-swapped"
+    if res == {"recurse(%s,%s)" % (i1, i2)}:
+        return "recurse"
+    if res == {"recurse(%s,%s)" % (i2, i1)}:
+        return "recurse-swapped"
+    return "other:" + "|".join(sorted(res))[:160]
+
+
 def _tuple_match_table(prog, rep, fn, rule, first_param, second_param, classify):
     """extract {(v_first, v_second): class} from `match (first, second) { ... }`"""
     hb = prog.hir_body(fn)
@@ -136,7 +250,16 @@ def rule_assign(prog, rep):
             return "recurse?(%s,%s)" % (recv, arg)
         return "other:%s" % body.get("k")
 
-    table = _tuple_match_table(prog, rep, fn, "C29.ASSIGN", "target", "self", classify)
+    try:
+        table = _tuple_match_table(prog, rep, fn, "C29.ASSIGN", "target", "self", classify)
+    except Undecided:
+        table = {}
+    # the deciding table is read from the CFG (self = arg1, target = arg2; the recursion is
+    # item(self).is_assignable_to(item(target))); the typed-HIR table only supplies line numbers
+    mir = _mir_pair_table(fn, 1, 2, r"is_assignable_to$")
+    for (s, t), res in sorted(mir.items()):
+        line = table.get((t, s), (None, None))[1]
+        table[(t, s)] = (_cell_class(res, "a", "b"), line)
     for (t, s), (cls, line) in sorted(table.items()):
         want = spec_compat(t, s)
         ok = cls == want
@@ -215,7 +338,14 @@ def rule_impl(prog, rep):
             return "recurse-swapped" if b_iface and b_impl and a1 == b_impl[0] and a2 == b_iface[0] else "recurse?"
         return "other:%s" % body.get("k")
 
-    table = _tuple_match_table(prog, rep, fn, "C29.IMPL", "interface_field_type", "impl_field_type", classify)
+    try:
+        table = _tuple_match_table(prog, rep, fn, "C29.IMPL", "interface_field_type", "impl_field_type", classify)
+    except Undecided:
+        table = {}
+    mir = _mir_pair_table(fn, 2, 3, r"is_valid_implementation_field_type$")
+    for (t, s), res in sorted(mir.items()):
+        line = table.get((t, s), (None, None))[1]
+        table[(t, s)] = (_cell_class(res, "a", "b"), line)
     for (t, s), (cls, line) in sorted(table.items()):
         want = spec_compat(t, s)
         want = "eq-or-subtype" if want == "eq" else want
